@@ -74,6 +74,14 @@ def cases(tier, seed, info):
                             out.append(dict(mode=s['mode'], fault=s['fault'], err=s['err'], pos=pos, entry=entry,
                                             clean=clean, hex=hexm, pel=p, data=data,
                                             hidden=encode.encode(hidden)))
+        # file names of every legal length up to the longest (255), results written next to the inputs (no -o) or
+        # into a directory of their own: near the top the result's name no longer fits
+        for namelen in (60, 200, 241, 242, 250, 254, 255):
+            for place in ('sep', 'same'):
+                for entry in ('func', 'main'):
+                    for clean in (True, False):
+                        out.append(dict(mode='json', fault='none', err='', pos='-', entry=entry, clean=clean, hex=False,
+                                        pel=p, data=data, hidden=encode.encode(hidden), namelen=namelen, place=place))
         for m in ('json', 'file'):
             for pt_ in CRASH_POINTS[m]:
                 out.append(dict(kind='crash', mode=m, point=pt_, pel=p, data=data))
@@ -573,6 +581,8 @@ def run_case(case):
     else:
         content = data
     name = '%08X_%d' % (0x50000100 + case['pel'], case['pel'])
+    if case.get('namelen'):
+        name = (name + '_' + 'n' * 255)[:case['namelen']]
     in_path = os.path.join(work, 'in', name)
     seams.write_file(in_path, content)
     before = hashlib.sha256(content).hexdigest()
@@ -588,7 +598,7 @@ def run_case(case):
             plan['write'] = {'first': 0, 'mid': 7, 'last': 2 * (2 + (len(data) + 15) // 16) - 1}[case['pos']]
     if fault in ('flush', 'close'):
         plan[fault] = True
-    out_dir = os.path.join(work, 'out')
+    out_dir = os.path.join(work, 'in' if case.get('place') == 'same' else 'out')
 
     real_open, real_remove, real_unlink, real_io_open = builtins.open, os.remove, os.unlink, io.open
     opened = []
@@ -610,7 +620,11 @@ def run_case(case):
             if fault == 'open':
                 log.append('open_fail')
                 _raise(case.get('err', 'ENOSPC'), 'open')
-            real = real_open(file, mode_, *a, **kw)
+            try:
+                real = real_open(file, mode_, *a, **kw)
+            except OSError:                 # the file system itself refuses (a name that is too long)
+                log.append('open_fail')
+                raise
             log.append('open_ok')
             opened.append(file)
             raw = (a and a[0] == 0) or kw.get('buffering') == 0
@@ -624,7 +638,11 @@ def run_case(case):
             if fault == 'open':
                 log.append('open_fail')
                 _raise(case.get('err', 'ENOSPC'), 'open')
-            fd = real_os_open(path, flags, *a, **kw)
+            try:
+                fd = real_os_open(path, flags, *a, **kw)
+            except OSError:
+                log.append('open_fail')
+                raise
             fdmap[fd] = os.fspath(path)
             return fd
         return real_os_open(path, flags, *a, **kw)
@@ -660,7 +678,7 @@ def run_case(case):
                 sys.stdout, sys.stderr = old
         else:
             if mode == 'json':
-                argv = ['-p', os.path.join(work, 'in'), '-j', '-o', out_dir]
+                argv = ['-p', os.path.join(work, 'in'), '-j'] + (['-o', out_dir] if case.get('place') != 'same' else [])
             else:
                 argv = ['-f', in_path] + (['-x'] if case['hex'] else [])
             if case['clean']:
@@ -679,7 +697,7 @@ def run_case(case):
     present = os.path.exists(in_path)
     unchanged = present and hashlib.sha256(open(in_path, 'rb').read()).hexdigest() == before
     if mode == 'json':
-        files = sorted(os.listdir(out_dir))
+        files = sorted(f for f in os.listdir(out_dir) if not (case.get('place') == 'same' and f == name))
         complete = False
         if len(files) == 1:
             with open(os.path.join(out_dir, files[0])) as f:
